@@ -76,7 +76,7 @@ def add_deps_path():
 
 def ensure_built():
     """Rebuild the extension modules of REPO's current working tree in place (2.5 s when up to date)."""
-    lk = _lock("build.lock")
+    lk = _lock("build.lock" if REPO == "/repo" else "build_%s.lock" % hashlib.sha1(REPO.encode()).hexdigest()[:8])
     try:
         t0 = time.time()
         env = dict(os.environ)
